@@ -282,6 +282,18 @@ class CSSImportRule(cssrule.CSSRule):
         self._checkReadonly()
         self._loadHref(href)
 
+    def _updateHref(self, href):
+        """Set `href` only: the style sheet stays as it is. Used by
+        `resolveImports`, which moves a rule to a sheet at another place."""
+        # set new href
+        self._href = href
+        # update seq
+        for i, item in enumerate(self.seq):
+            type_ = item.type
+            if 'href' == type_:
+                self._seq[i] = (href, type_, item.line, item.col)
+                break
+
     def _absoluteHref(self):
         """Return the URL `href` refers to from the parent sheet
         (a malformed URL raises ValueError)."""
@@ -303,14 +315,7 @@ class CSSImportRule(cssrule.CSSRule):
             except ValueError:
                 pass
 
-        # set new href
-        self._href = href
-        # update seq
-        for i, item in enumerate(self.seq):
-            type_ = item.type
-            if 'href' == type_:
-                self._seq[i] = (href, type_, item.line, item.col)
-                break
+        self._updateHref(href)
 
         importedSheet = cssutils.css.CSSStyleSheet(
             media=self.media, ownerRule=self, title=self.name
